@@ -144,6 +144,17 @@ func (p *ProbeImpl) Lend(q probe.LentProxy) error {
 	return nil
 }
 
+// LentPublicID is the identifier under which the service exposes the object
+// lent to this one (0 when nothing was lent).
+func (p *ProbeImpl) LentPublicID() uint32 {
+	p.mu.Lock()
+	defer p.mu.Unlock()
+	if p.lent == nil {
+		return 0
+	}
+	return p.lent.Proxy().ObjectID()
+}
+
 // Relay calls echo on the lent object and returns its answer.
 func (p *ProbeImpl) Relay(tok probe.Token) (probe.Token, error) {
 	p.mu.Lock()
